@@ -509,7 +509,14 @@ SERDE_ASSUME = ["serde and serde_json (textual encoding, number parsing, key del
 
 def attr_serde(case, fail):
     kind = fail["kind"]
-    props = {"C18"} if kind.startswith("rt.") else {"C19"}
+    stratum = case.get("stratum") or ""
+    if kind.startswith("rt."):
+        props = {"C18"}
+    elif kind in ("abort", "hang"):
+        # the process died: a round-trip case exercises serialisation + deserialisation, a document case only the latter
+        props = {"C18", "C19"} if stratum.startswith("roundtrip") else {"C19"}
+    else:
+        props = {"C19"}
     d = fail.get("detail", {})
     sig = {"family": "serde", "kind": kind, "stratum": case.get("stratum"), "transport": d.get("transport") or d.get("path")}
     return props, sig
